@@ -168,7 +168,7 @@ def run(chk, tier, seed):
             m = descr[i] if 0 <= i < len(descr) else None
             site = "?"
             import re
-            fr = [f for f in re.findall(r"#\d+ 0x[0-9a-f]+ in (\S+) /repo/src/ksi/", err) if f not in ("KSI_free", "KSI_malloc", "KSI_calloc")]
+            fr = [f for f in re.findall(r"#\d+ 0x[0-9a-f]+ in (\S+) \S*/src/ksi/", err) if f not in ("KSI_free", "KSI_malloc", "KSI_calloc")]
             kind = "leak" if "LeakSanitizer" in err and "AddressSanitizer:" not in err.replace("SUMMARY: AddressSanitizer", "") else "timeout" if rc in (-9, 124) else "memory-error"
             if fr: site = "<".join(fr[:2])
             chk.violation("%s:%s:%s" % (kind, entry, site), "%s in entry point %s on seed %s with mutation %s\n%s" % (kind, entry, name, m, err[-2500:]), dict(seed=name, mutation=m, line=lines[i][:6000] if 0 <= i < len(lines) else ""))
